@@ -1,5 +1,11 @@
-"""Translator section for the text properties (C04): the entity table SAMIParser uses.
-   coq/model/GenText.v :  sami_name2codepoint : list (list Z * Z)   (name -> code point, sorted by name)"""
+"""Translator section for the text properties (C03, C04).
+   coq/model/GenText.v :
+     sami_name2codepoint : list (list Z * Z)        the entity table SAMIParser uses (name -> code point)
+     html4_entities      : list (list Z * Z)        html.entities.name2codepoint of the Python standard library
+     html5_entities      : list (list Z * list Z)   html.entities.html5, names with ';' only (name without ';' -> text):
+                                                    the named character references of HTML, used by the WebVTT reference
+                                                    parser (spec) - standard library data, not pycaption's
+     vtt_voice_pattern, vtt_other_pattern : list Z  the two regular expressions of pycaption/webvtt.py, as text"""
 TARGET = "GenText.v"
 
 
@@ -19,3 +25,24 @@ def emit(w, get, fail, zlit, strlit, word):
             fail("name2codepoint", f"unexpected entry {name!r}: {cp!r}")
         w("  (" + strlit(name) + ", " + zlit(cp) + ")" + (";" if k < len(items) - 1 else ""))
     w("].")
+
+    import html.entities as he
+    w("")
+    w("Definition html4_entities : list (list Z * Z) := [")
+    items = sorted(he.name2codepoint.items())
+    for k, (name, cp) in enumerate(items):
+        w("  (" + strlit(name) + ", " + zlit(cp) + ")" + (";" if k < len(items) - 1 else ""))
+    w("].")
+    w("")
+    w("Definition html5_entities : list (list Z * list Z) := [")
+    items = sorted((n[:-1], v) for n, v in he.html5.items() if n.endswith(";"))
+    for k, (name, val) in enumerate(items):
+        w("  (" + strlit(name) + ", " + strlit(val) + ")" + (";" if k < len(items) - 1 else ""))
+    w("].")
+    w("")
+    voice = get("pycaption.webvtt", "VOICE_SPAN_PATTERN")
+    other = get("pycaption.webvtt", "OTHER_SPAN_PATTERN")
+    for nm, pat in (("vtt_voice_pattern", voice), ("vtt_other_pattern", other)):
+        if not hasattr(pat, "pattern") or not isinstance(pat.pattern, str):
+            fail("pycaption.webvtt." + nm, "not a compiled str pattern")
+        w("Definition " + nm + " : list Z := " + strlit(pat.pattern) + ".")
